@@ -164,6 +164,7 @@ INT_FUNCS = {
     "cell_to_children2": lambda a5, s, x, rx: s.cell_to_children(x, min(rx + 2, 29)),
     "get_resolution": lambda a5, s, x, rx: s.get_resolution(x),
     "uncompact": lambda a5, s, x, rx: importlib.import_module("a5.core.compact").uncompact([x], min(rx + 1, 29)),
+    "uncompact2": lambda a5, s, x, rx: importlib.import_module("a5.core.compact").uncompact([x], min(rx + 2, 29)),
     "compact": lambda a5, s, x, rx: importlib.import_module("a5.core.compact").compact(s.cell_to_children(x, min(rx + 1, 29))),
     "is_first_child": lambda a5, s, x, rx: s.is_first_child(x),
     "get_num_cells": lambda a5, s, x, rx: importlib.import_module("a5.core.cell_info").get_num_cells(rx),
@@ -406,6 +407,12 @@ def jobs(tier, seed):
             for rx, ry in res_pairs:
                 js.append(Job("history[%s;%s;%d,%d]" % (f, g, rx, ry), "h_int_history", {"f": f, "g": g, "rx": rx, "ry": ry},
                               {"max_paths": 3000}, weight=2))
+    # histories across the 12 -> 5 -> 4 aperture changes and between the one- and two-level variants
+    for f, g in (("cell_to_children", "cell_to_children2"), ("cell_to_children2", "cell_to_children"), ("uncompact2", "uncompact2"),
+                 ("uncompact", "uncompact2"), ("uncompact2", "uncompact"), ("cell_to_children2", "cell_to_children2")):
+        for rx, ry in ((-1, -1), (0, 0), (0, 2), (2, 0), (-1, 2), (1, 3), (-1, 0), (0, -1)):
+            js.append(Job("history[%s;%s;%d,%d]" % (f, g, rx, ry), "h_int_history", {"f": f, "g": g, "rx": rx, "ry": ry},
+                          {"max_paths": 3000}, weight=2))
     n = len(c16.API_CALLS)
     pairs = [(i, (i * 7 + 3) % n) for i in range(n)] + [(i, i) for i in range(0, n, 3)]
     if tier != "quick":
@@ -511,6 +518,7 @@ FUNCS = {
     "cell_to_children2": lambda x, rx: s.cell_to_children(x, min(rx + 2, 29)),
     "get_resolution": lambda x, rx: s.get_resolution(x),
     "uncompact": lambda x, rx: a5.uncompact([x], min(rx + 1, 29)),
+    "uncompact2": lambda x, rx: a5.uncompact([x], min(rx + 2, 29)),
     "compact": lambda x, rx: a5.compact(s.cell_to_children(x, min(rx + 1, 29))),
     "is_first_child": lambda x, rx: s.is_first_child(x),
     "get_num_cells": lambda x, rx: a5.get_num_cells(rx),
